@@ -101,6 +101,7 @@ def impl(case):
     dims = case['dims']
     F = np.array(case['en8'], dtype=float).reshape(dims) / SC
     thr = case['thr8'] / SC
+    F0 = F.copy()
     G = free_energy_graph(F, max_energy_threshold=thr, diagonal=case['diag'])
     out = {'nodes': sorted(_idx(dims, n) for n in G.nodes),
            'edges': sorted([_idx(dims, a), _idx(dims, b), float(d['weight']), float(d['weight_exp'])] for a, b, d in G.edges(data=True))}
@@ -129,6 +130,7 @@ def impl(case):
     pw = Pathway(sites=[tuple(s) for s in case['sites']], energy=[0.0] * len(case['sites']), dims=tuple(dims))
     out['wrapped'] = [[int(x) for x in v] for v in pw.wrapped_sites()]
     out['frac'] = np.asarray(pw.frac_sites()).tolist()
+    out['inputs_changed'] = [] if np.array_equal(F, F0) else ['free-energy grid']
     return out
 
 
@@ -207,7 +209,7 @@ def _tiled(case, axes):
 def oracle(case, out):
     if 'queries' not in out:
         return [('c10/harness-error', f"{out.get('error')}: {out.get('msg')} {out.get('tb', '')[-500:]}")]
-    fs = []
+    fs = synth.inputs_clause(out, 'free_energy_graph / optimal_path / optimal_percolating_path')
     dims, en, thr = case['dims'], case['en8'], case['thr8']
     # adjp: the property's neighbourhood (faces, or faces + edges + corners); adjc: the moves the code uses
     adjp = _graph(dims, en, thr, case['diag'], MOVES26 if case['diag'] else MOVES6)
